@@ -46,6 +46,30 @@ _leaf("mod_client_hello_long", "parse_tls_handshake_client_hello (list helpers r
 _leaf("leaf_cipher_suites", "parse_cipher_suites", "input <= 7 bytes, declared length usize full domain")
 _leaf("leaf_compressions", "parse_compressions_algs", "input <= 4 bytes, declared length usize full domain")
 _leaf("leaf_tls_versions", "parse_tls_versions", "input <= 7 bytes")
+_TAGS = ["sni", "max_fragment_length", "status_request", "elliptic_curves", "ec_point_formats", "signature_algorithms", "heartbeat", "encrypt_then_mac",
+         "extended_master_secret", "session_ticket", "pre_shared_key", "early_data", "supported_versions", "cookie", "psk_key_exchange_modes", "key_share"]
+for _t in _TAGS:
+    _leaf("rel_tag_rej_" + _t, "parse_tls_extension_" + _t, "input 2..6 bytes, type bytes over all 65535 other values", "rel")
+    _leaf("rel_tag_" + _t, "parse_tls_extension_" + _t + " vs framing + its content parser", "input <= 9 bytes, own type bytes concrete", "rel")
+for _n, _f, _b in [
+    ("fd_ext_max_fragment_length", "parse_tls_extension_max_fragment_length_content", None), ("fd_ext_heartbeat", "parse_tls_extension_heartbeat_content", None),
+    ("fd_ext_record_size_limit", "parse_tls_extension_record_size_limit", None),
+    ("fd_ext_encrypt_then_mac", "parse_tls_extension_encrypt_then_mac_content", None), ("fd_ext_extended_master_secret", "parse_tls_extension_extended_master_secret_content", None),
+    ("fd_ext_post_handshake_auth", "parse_tls_extension_post_handshake_auth_content", None), ("fd_ext_npn", "parse_tls_extension_npn_content", None)]:
+    _leaf(_n, _f, "loop-free body over a <= 4 byte buffer; ext_len u16 full domain where taken", "fd", True)
+for _n, _f, _b in [
+    ("leaf_ext_ec_point_formats", "parse_tls_extension_ec_point_formats_content", 6), ("leaf_ext_renegotiation_info", "parse_tls_extension_renegotiation_info_content", 6),
+    ("leaf_ext_psk_modes", "parse_tls_extension_psk_key_exchange_modes_content", 6), ("leaf_ext_sct", "parse_tls_extension_signed_certificate_timestamp_content", 6),
+    ("leaf_ext_unknown", "parse_tls_extension_unknown", 8), ("leaf_ext_elliptic_curves", "parse_tls_extension_elliptic_curves_content", 8),
+    ("leaf_named_groups", "parse_named_groups", 7), ("leaf_ext_signature_algorithms", "parse_tls_extension_signature_algorithms_content", 8),
+    ("leaf_ext_alpn", "parse_tls_extension_alpn_content", 8), ("leaf_ext_sni", "parse_tls_extension_sni_content + parse_tls_extension_sni_hostname", 10),
+    ("leaf_ext_esni", "parse_tls_extension_encrypted_server_name", 12), ("leaf_ext_session_ticket", "parse_tls_extension_session_ticket_content", 6),
+    ("leaf_ext_key_share_old", "parse_tls_extension_key_share_old_content", 6), ("leaf_ext_key_share", "parse_tls_extension_key_share_content", 6),
+    ("leaf_ext_pre_shared_key", "parse_tls_extension_pre_shared_key_content", 6), ("leaf_ext_cookie", "parse_tls_extension_cookie_content", 6),
+    ("leaf_ext_padding", "parse_tls_extension_padding_content", 6), ("leaf_ext_status_request", "parse_tls_extension_status_request_content", 6),
+    ("leaf_ext_early_data", "parse_tls_extension_early_data_content", 6), ("leaf_ext_supported_versions", "parse_tls_extension_supported_versions_content", 7),
+    ("leaf_ext_oid_filters", "parse_tls_extension_oid_filters + parse_tls_oid_filter", 9)]:
+    _leaf(_n, _f, "input <= %d bytes, ext_len u16 full domain where taken" % _b)
 for _k in range(5):
     HARNESS["fd_states_cells_%d" % _k] = dict(kind="fd", proved=True, fns=["tls_state_transition", "tls_state_transition_handshake"],
         bound="states %d..%d x 22 message shapes x both directions x all 256x256 alert bytes; payload contents minimal (<= 2 bytes) - content-independence is the Verus unit's job" % (5 * _k, 5 * _k + 4))
@@ -86,7 +110,14 @@ PROPS = {
         level_note="Trusted: nom shim contracts be_u16/length_data (assumed in Verus, checked by Kani shim_* harnesses on the real nom); each content parser is an uninterpreted function in Verus with the single assumed fact 'on success it returns its own variant', which is an obligation of that parser's Kani leaf harness; IANA code-point table transcribed by hand (verus/units/dispatch_ext.py TABLE); rewrites R0, R5, R6, R8 (From::from lifted to a free fn).",
         technique="contract-based deductive verification: Verus postconditions on extracted dispatchers + Kani contract harnesses per content parser",
         verus=["dispatch_ext"],
-        kani=[],
+        kani=[dict(quick=["fd_ext_max_fragment_length", "fd_ext_heartbeat", "fd_ext_record_size_limit", "fd_ext_encrypt_then_mac", "fd_ext_extended_master_secret",
+                          "fd_ext_post_handshake_auth", "fd_ext_npn", "leaf_ext_ec_point_formats", "leaf_ext_renegotiation_info", "leaf_ext_psk_modes", "leaf_ext_sct",
+                          "leaf_ext_unknown", "leaf_ext_elliptic_curves", "leaf_named_groups", "leaf_ext_signature_algorithms", "leaf_ext_alpn", "leaf_ext_sni", "leaf_ext_esni",
+                          "leaf_ext_session_ticket", "leaf_ext_key_share_old", "leaf_ext_key_share", "leaf_ext_pre_shared_key", "leaf_ext_cookie", "leaf_ext_padding",
+                          "leaf_ext_status_request", "leaf_ext_early_data", "leaf_ext_supported_versions", "leaf_ext_oid_filters", "shim_be", "shim_length_data"]
+                         + ["rel_tag_rej_" + t for t in _TAGS]
+                         + ["rel_tag_" + t for t in _TAGS if t not in ("sni", "elliptic_curves", "signature_algorithms", "supported_versions", "psk_key_exchange_modes")],
+                   thorough=["rel_tag_sni", "rel_tag_elliptic_curves", "rel_tag_signature_algorithms", "rel_tag_supported_versions", "rel_tag_psk_key_exchange_modes"], timeout=400, timeout_thorough=1500)],
         witness_search={"dispatch_ext": {"ext_search": True}},
         explanation="see level_text",
     ),
